@@ -1,6 +1,5 @@
 package main
 
-func extractPause()       {}
 func extractQueue()       {}
 func extractUrl()         {}
 func extractStages()      {}
